@@ -12,8 +12,9 @@ TraceFile == IOEnv.TRACE
 OutFile == IOEnv.VERDICT
 Tr == ndJsonDeserialize(TraceFile)
 
-VARIABLES l, bad, cov
-vars == <<l, bad, cov>>
+\* the whole trace-validation state is ONE variable (see StepAll): position, bad steps, coverage
+VARIABLE st
+vars == <<st>>
 
 ---------------------------------------------------------------------------
 \* reading logged numbers
@@ -249,22 +250,25 @@ Stratum(e) ==
   ELSE "-"
 
 ---------------------------------------------------------------------------
-Init == l = 1 /\ bad = <<>> /\ cov = <<>>
+Init == st = [l |-> 1, bad |-> <<>>, cov |-> <<>>]
 
-Next ==
-  /\ l <= Len(Tr)
-  /\ LET e == Tr[l]
-         res == DomainProblems(e) \o Check(e)
-         key == e.op \o "|" \o Stratum(e)
-     IN /\ bad' = bad \o [i \in 1..Len(res) |-> [line |-> l, op |-> e.op, stratum |-> Stratum(e)] @@ res[i]]
-        /\ cov' = IF key \in DOMAIN cov THEN [cov EXCEPT ![key] = @ + 1] ELSE cov @@ (key :> 1)
-  /\ l' = l + 1
+\* The whole step is computed inside ONE operator applied to ONE state variable: TLC caches LET definitions
+\* inside an expression, but not a LET written directly in an action (each use re-evaluates the oracle).
+StepAll(s, e) ==
+  LET res == DomainProblems(e) \o Check(e)
+      sm == Stratum(e)
+      key == e.op \o "|" \o sm
+  IN [l |-> s.l + 1,
+      bad |-> s.bad \o [i \in 1..Len(res) |-> [line |-> s.l, op |-> e.op, stratum |-> sm] @@ res[i]],
+      cov |-> IF key \in DOMAIN s.cov THEN [s.cov EXCEPT ![key] = @ + 1] ELSE s.cov @@ (key :> 1)]
+
+Next == st.l <= Len(Tr) /\ st' = StepAll(st, Tr[st.l])
 
 Spec == Init /\ [][Next]_vars
 
 \* when the whole trace is consumed, write the verdict report (evaluated once, in the last state)
 Report ==
-  l = Len(Tr) + 1 =>
-    JsonSerialize(OutFile, [lines |-> Len(Tr), consumed |-> l - 1, bad |-> bad,
-                            cov |-> [k \in DOMAIN cov |-> cov[k]]])
+  st.l = Len(Tr) + 1 =>
+    JsonSerialize(OutFile, [lines |-> Len(Tr), consumed |-> st.l - 1, bad |-> st.bad,
+                            cov |-> [k \in DOMAIN st.cov |-> st.cov[k]]])
 =============================================================================
